@@ -54,7 +54,7 @@ def match_known(known, prop, key):
 
 
 # ----------------------------------------------------------------------------- report parsing
-FRAME_RE = re.compile(r"^\s*#(\d+)\s+0x[0-9a-f]+\s+(?:in\s+)?(\S+)\s*(.*)$")
+FRAME_RE = re.compile(r"^\s*#(\d+)\s+(?:0x[0-9a-f]+\s+)?(?:in\s+)?(\S+)\s*(.*)$")
 
 
 def _interesting_frame(func, loc):
